@@ -2082,6 +2082,74 @@ func Transfer(w *load.World, c *core.Collector) {
 
 // dirDepths: how many filepath.Dir applications separate v from a parameter of the function
 // (-1: not derived from a parameter by Dir alone).
+// structResultFieldDepths: the call returns a struct built by a function of the module from one
+// path argument; the directory depths of the given field, relative to the caller's path.
+func structResultFieldDepths(call *ssa.Call, field int, seen map[ssa.Value]bool, depth int) (map[int]bool, bool) {
+	h := call.Call.StaticCallee()
+	if h == nil || !ssax.InModule(h) || len(h.Blocks) == 0 || h.Signature.Results().Len() != 1 || ssax.StructOf(h.Signature.Results().At(0).Type()) == nil {
+		return nil, false
+	}
+	// exactly one string parameter: the path
+	pi := -1
+	for i, q := range h.Params {
+		if bt, ok := q.Type().Underlying().(*types.Basic); ok && bt.Kind() == types.String {
+			if pi >= 0 {
+				return nil, false
+			}
+			pi = i
+		}
+	}
+	if pi < 0 || pi >= len(call.Call.Args) {
+		return nil, false
+	}
+	inner := map[int]bool{}
+	found := false
+	for _, hb := range h.Blocks {
+		r, ok := hb.Instrs[len(hb.Instrs)-1].(*ssa.Return)
+		if !ok || hb == h.Recover {
+			continue
+		}
+		rv := ssax.ReturnOperand(r, 0)
+		ld, ok := rv.(*ssa.UnOp)
+		if !ok {
+			return nil, false
+		}
+		al, ok := ld.X.(*ssa.Alloc)
+		if !ok {
+			return nil, false
+		}
+		for _, ref := range *al.Referrers() {
+			fa, ok := ref.(*ssa.FieldAddr)
+			if !ok || fa.Field != field {
+				continue
+			}
+			for _, rr := range *fa.Referrers() {
+				if st, ok := rr.(*ssa.Store); ok && st.Addr == ssa.Value(fa) {
+					found = true
+					for d := range dirDepths(st.Val, map[ssa.Value]bool{}, depth+1) {
+						inner[d] = true
+					}
+				}
+			}
+		}
+	}
+	if !found {
+		return nil, false
+	}
+	outer := dirDepths(call.Call.Args[pi], seen, depth+1)
+	out := map[int]bool{}
+	for a := range outer {
+		for b := range inner {
+			if a < 0 || b < 0 {
+				out[-1] = true
+			} else {
+				out[a+b] = true
+			}
+		}
+	}
+	return out, true
+}
+
 func dirDepths(v ssa.Value, seen map[ssa.Value]bool, depth int) map[int]bool {
 	out := map[int]bool{}
 	if v == nil || seen[v] || depth > 12 {
@@ -2110,10 +2178,30 @@ func dirDepths(v ssa.Value, seen map[ssa.Value]bool, depth int) map[int]bool {
 		for _, e := range x.Edges {
 			add(dirDepths(e, seen, depth+1), 0)
 		}
+	case *ssa.Field:
+		if call, ok := x.X.(*ssa.Call); ok {
+			if m, ok := structResultFieldDepths(call, x.Field, seen, depth); ok {
+				add(m, 0)
+				break
+			}
+		}
+		out[-1] = true
 	case *ssa.UnOp:
 		if x.Op != token.MUL {
 			out[-1] = true
 			break
+		}
+		// a field of the struct a helper of the module returned ("owner := locate(path);
+		// owner.shardDir"): what the helper put into that field, in terms of its argument
+		if fa, ok := x.X.(*ssa.FieldAddr); ok {
+			if al, ok := fa.X.(*ssa.Alloc); ok {
+				if call, ok := ssax.SingleStore(al).(*ssa.Call); ok {
+					if m, ok := structResultFieldDepths(call, fa.Field, seen, depth); ok {
+						add(m, 0)
+						break
+					}
+				}
+			}
 		}
 		// load from a local cell, array or slice element: everything ever stored there
 		var root ssa.Value = x.X
